@@ -9,9 +9,36 @@ from sa.model import find_resloops, processor_classes, resloop_signature, row_lo
 from sa.paths import FALL, RAISE, Enumerator, path_nodes
 
 
+def finalizer_clause(ctx):
+    """finalizer(callback): the callback runs once, after the last row, and the stats it is handed are read after the stream was
+    passed on completely - read earlier they lack whatever upstream steps gather while rows flow (a dumper's row count, bytes, hash)."""
+    run, repo = ctx.run, ctx.repo
+    from rules.order import check_order, report_order
+    run.rule('FIN', 'FINALIZER: the stream is passed on completely (yield from <base>) before the stats are merged, the stats are merged '
+                    'before the callback is called, and the callback is called exactly once on every normal path')
+    fz = repo.cls('dataflows.processors.finalizer:finalizer')
+    gi = fz.methods.get('get_iterator')
+    if gi is None:
+        raise AnalysisError('finalizer.get_iterator not found')
+    inner = [f for f in repo.functions.values() if f.parent is gi and f.is_generator]
+    if len(inner) != 1:
+        raise AnalysisError('finalizer.get_iterator: the generator that wraps the base iterator was not found')
+    fn = ctx.N(inner[0])
+    preds = {'PASS': lambda x: isinstance(x, ast.YieldFrom),
+             'STATS': lambda x: isinstance(x, ast.Call) and isinstance(x.func, ast.Attribute) and x.func.attr == 'merge_stats',
+             'CALLBACK': lambda x: isinstance(x, ast.Call) and pseudo(x.func) == 'self.callback'}
+    pes, problems = check_order(ctx, 'FIN', fn, preds, before=[('PASS', 'STATS'), ('PASS', 'CALLBACK')], required=['PASS', 'CALLBACK'],
+                                once=['CALLBACK'])
+    # the stats that reach the callback were merged after the pass-through (not a value captured before it)
+    report_order(ctx, 'FIN', fn, problems, pes, 'yield from base < merge_stats < callback (once)',
+                 'the finalizer reports before the stream has passed it completely (stats merged or callback called too early), or not '
+                 'exactly once')
+
+
 def check(ctx):
     run = ctx.run
     repo, res = ctx.repo, ctx.res
+    finalizer_clause(ctx)
     run.rule('R12', 'ROW-LOOP-SHAPE(observer): on every path of one iteration of an observer\'s row loop the incoming row object '
                     'is yielded exactly once, nothing is stored into it, the loop is not left early, and the observer\'s side '
                     'effect (write) is applied to that row exactly once')
